@@ -52,6 +52,7 @@ GSTEP = ["vp_g.hold", "vp_g.spin", "vp_g.waited", "vp_g.dead", "vp_g.set_desig",
 GLOCK = GSTEP + ["vp_g.queued", "vp_g.p_calls"]
 GALL = GSTEP + ["vp_g.queued", "vp_g.p_calls", "vp_g.v_calls", "vp_g.cond_evals", "vp_g.last_cond", "vp_g.last_sem_outcome"]
 FWDL = ["vp_fw.nw.waiting", "vp_fw.nw.flags", "vp_fw.remove_count", "vp_fw.cv_mu", "vp_fw.flags", "vp_fw.l_type", "vp_fw.cond.f"]
+WKF0 = ["vp_wk.cleared", "vp_wk.posted", "vp_wk.pending", "vp_wk.last_cleared"]
 HOLDLT = "((l_type == nsync_writer_type_ && vp_g.hold == 2) || (l_type == nsync_reader_type_ && vp_g.hold == 1))"
 MU_ASSUMED = ["rely/guarantee soundness (paper argument): L-J + F-f for all f  ==>  J holds in every reachable state of every interleaving; atomic steps indivisible and sequentially consistent",
               "fewer than 2^24-1 threads hold or request one mutex (reader-count width)",
@@ -96,7 +97,7 @@ L_MU_WAIT = {"nsync_mu_wait_with_deadline": [
                     "outcome == 0 || outcome == 110 || outcome == 125",
                     "(vp_tag_C05_reason != 0 || outcome == 0 || outcome == vp_g.last_sem_outcome)",
                     "(vp_tag_C05_reason != 0 || (condition_is_true != 0) == (condition == 0 || vp_g.last_cond != 0))"],
-     "assigns": GALL + FWDL + ["vp_cvg.spin", "vp_my_w", "vp_reg.my_waiting", "mu->word", "mu->waiters", "w", "outcome", "condition_is_true", "first_wait", "old_word"]},
+     "assigns": GALL + FWDL + WKF0 + ["vp_cvg.spin", "vp_my_w", "vp_reg.my_waiting", "mu->word", "mu->waiters", "w", "outcome", "condition_is_true", "first_wait", "old_word"]},
     {"names": ["mu", "l_type", "old_word", "add_to_acquire", "had_waiters"],
      "invariants": ["vp_g.spin == 1 && vp_g.dead == 0 && vp_g.waited == 0 && vp_g.queued == 1", HOLDLT, "vp_g.hold == __CPROVER_loop_entry(vp_g.hold)"],
      "assigns": GSTEP + ["mu->word", "old_word", "add_to_acquire"]},
@@ -140,6 +141,15 @@ def mu_groups(tags=None, which=None, tier="quick"):
              "nsync_mu_unlock_slow_", "nsync_sem_wait_with_cancel_", "mu_try_acquire_after_timeout_or_cancel", "nsync_mu_lock_slow_"],
             L_MU_WAIT, tags, oldstyle=True, object_bits=10, timeout=900, functions=["nsync_mu_wait_with_deadline"]),
     ]
+    # nsync_mu_unlock_slow_: under dfcc (5 loop contracts, 6 replaced callees) cbmc exceeds 48 GB; decided by a BOUNDED run of the real body:
+    # every loop (retry loops and queue scans, helpers included) unwound k times, arbitrary interference at every atomic step, abstract
+    # queue with two distinct records
+    k = 6 if tier == "thorough" else 4
+    gs.append(Group(name="mu.unlock_slow", srcs=[M] + RG + ["repo:internal/common.c"], entry="h_unlock_slow", no_dfcc=True, kind="bounded",
+                    bound=f"every loop of nsync_mu_unlock_slow_ and of the helpers it calls unwound {k} times (paths needing more iterations are cut); "
+                          "arbitrary interference on the mutex word before every atomic step; abstract waiter queue with two distinct records",
+                    timeout=1800, unwind=k, no_unwinding_assertions=True, object_bits=10, defines=MU_DEF + ["VP_RG_WAKER", "VP_TWO_RECORDS"], mem_gb=24,
+                    tags=tags, assumed=MU_ASSUMED, min_obligations=300, replay="rg", functions=["nsync_mu_unlock_slow_"]))
     C = "harness/mu/common_all.c"
     gs += [
         Group(name="mu.spin_test_and_set", srcs=[C] + RG, entry="h_spin_test_and_set_mu", enforce="nsync_spin_test_and_set_",
